@@ -16,17 +16,18 @@ type start struct {
 	b    *ssa.BasicBlock
 	idx  int
 	desc string
+	pred *ssa.BasicBlock // the start point is the target of the edge pred -> b (nil: unknown)
 }
 
 func afterInstr(c *Ctx, in ssa.Instruction) start {
-	return start{in.Block(), ir.IndexIn(in) + 1, "after " + c.at(in)}
+	return start{in.Block(), ir.IndexIn(in) + 1, "after " + c.at(in), nil}
 }
 
 func atEdge(c *Ctx, e ir.Edge, what string) start {
-	return start{e.From.Succs[e.Succ], 0, what}
+	return start{e.From.Succs[e.Succ], 0, what, e.From}
 }
 
-func atEntry(fn *ssa.Function) start { return start{fn.Blocks[0], 0, "entry"} }
+func atEntry(fn *ssa.Function) start { return start{fn.Blocks[0], 0, "entry", nil} }
 
 // isExit: a normal function exit.
 func isExit(in ssa.Instruction) bool {
@@ -79,7 +80,7 @@ func (c *Ctx) mustFollowOpt(fn *ssa.Function, what string, starts []start, b Sel
 			be := ir.BackEdgesTo(h)
 			wcut = ir.Union(cut, be)
 			arrived := map[*ssa.BasicBlock]bool{}
-			ir.Walk(s.b, s.idx, wcut, func(in ssa.Instruction) bool {
+			ir.WalkCtx(s.b, s.idx, s.pred, wcut, func(in ssa.Instruction) bool {
 				if b(in) {
 					return false
 				}
@@ -98,7 +99,7 @@ func (c *Ctx) mustFollowOpt(fn *ssa.Function, what string, starts []start, b Sel
 				}
 			}
 		}
-		ir.Walk(s.b, s.idx, wcut, func(in ssa.Instruction) bool {
+		ir.WalkCtx(s.b, s.idx, s.pred, wcut, func(in ssa.Instruction) bool {
 			if b(in) {
 				return false
 			}
@@ -161,7 +162,7 @@ func (c *Ctx) mustPrecede(fn *ssa.Function, a Sel, aname string, b Sel, bname st
 	}
 	var bad []string
 	s := atEntry(fn)
-	ir.Walk(s.b, s.idx, nil, func(in ssa.Instruction) bool {
+	ir.WalkCtx(s.b, s.idx, s.pred, nil, func(in ssa.Instruction) bool {
 		if a(in) {
 			return false
 		}
@@ -196,7 +197,7 @@ func (c *Ctx) mustReachBefore(fn *ssa.Function, what string, starts []start, b S
 	var viol, sites []string
 	for _, s := range starts {
 		sites = append(sites, "from:"+s.desc)
-		ir.Walk(s.b, s.idx, nil, func(in ssa.Instruction) bool {
+		ir.WalkCtx(s.b, s.idx, s.pred, nil, func(in ssa.Instruction) bool {
 			if b(in) {
 				return false
 			}
